@@ -9,6 +9,7 @@ CONSTANTS
   FIX_DeferredReset = FALSE
   FIX_LocalRollback = FALSE
   FIX_DeleteAfter = FALSE
+  FIX_NotifyAfterCommit = FALSE
   DEV_HeadsOutsideTx = FALSE
   DEV_SpaceTwoTx = FALSE
   GEN = FALSE
